@@ -170,6 +170,17 @@ def as_iterable(items, sel: int):
     return items
 
 
+class TaggedValue(ir.Value):
+    """A subclass as user code may write it: own state is set after ``super().__init__()`` and used by ``__repr__``."""
+
+    def __init__(self, *args, tag=0, **kwargs) -> None:
+        super().__init__(*args, **kwargs)
+        self.tag = tag
+
+    def __repr__(self) -> str:
+        return f"TaggedValue(tag={self.tag}, name={self.name!r})"
+
+
 # ------------------------------------------------------------------ the ops
 def op_new_value(w, a, b, c, d):
     kw = {}
@@ -180,7 +191,11 @@ def op_new_value(w, a, b, c, d):
     name = name_from(w, a)
     if c % 3 == 0:
         kw["const_value"] = small_tensor(w, c, name)
-    v = ir.Value(name=name, **kw)
+    if (b >> 7) % 13 == 5:
+        # a user subclass that finishes setting itself up after the base constructor returned (its repr needs that)
+        v = TaggedValue(name=name, tag=b % 7, **kw)
+    else:
+        v = ir.Value(name=name, **kw)
     w.reg(v)
     return w.ref(v)
 
